@@ -463,7 +463,7 @@ def Expr.flatClosed : Expr → Prop
   | .binding _ v _ _ _ => v.flatClosed
   | .paren v _ _ _ _ _ _ => v.flatClosed
   | .app n x _ _ _ _ => n.flatClosed ∧ x.flatClosed
-  | .wth .. => True
+  | .wth env body _ _ _ _ _ => env.flatClosed ∧ body.flatClosed
   | .asrt .. => True
   | .sel e _ _ _ _ _ => e.flatClosed
   | .selOr e _ _ _ d _ _ _ _ => e.flatClosed ∧ d.flatClosed
@@ -600,7 +600,10 @@ theorem cst_flat : (c : Cst) → c.wf = true → ∀ (e : Expr), c.parse = .ok e
       | ok ae =>
         rw [hpa] at hp; injection hp with hp; subst hp
         exact ⟨cst_flat f hfw fe hpf, flatClosed_setBefore (cst_flat a haw ae hpa) _⟩
-  | .kw w c1 g1 h c2 g2 c3 g3 b, _, e, hp => by
+  | .kw w c1 g1 h c2 g2 c3 g3 b, hwf, e, hp => by
+    simp only [Cst.wf, Bool.and_eq_true, List.isEmpty_iff] at hwf
+    obtain ⟨⟨⟨⟨⟨⟨⟨hc1, _⟩, hhw⟩, hc2⟩, _⟩, hc3⟩, _⟩, hbw⟩ := hwf
+    subst hc1; subst hc2; subst hc3
     simp only [Cst.parse] at hp
     cases hph : h.parse with
     | error err => rw [hph] at hp; cases hp
@@ -611,7 +614,11 @@ theorem cst_flat : (c : Cst) → c.wf = true → ∀ (e : Expr), c.parse = .ok e
       | ok be =>
         rw [hpb] at hp; injection hp with hp; subst hp
         split
-        · unfold withFromCst; trivial
+        · rw [withFromCst_shape]
+          refine ⟨cst_flat h hhw he hph, ?_⟩
+          split
+          · exact cst_flat b hbw be hpb
+          · exact flatClosed_setBefore (cst_flat b hbw be hpb) _
         · unfold asrtFromCst; trivial
   | .sel e c1 g1 gd attrs, hwf, ex, hp => by
     simp only [Cst.wf, Bool.and_eq_true] at hwf
@@ -742,7 +749,9 @@ theorem inlineClean_of_flat : (e : Expr) → e.beforeFlatB = true → e.flatClos
     rcases h.1.1 with h1 | h1
     · rw [hon] at h1; cases h1
     · exact h1
-  | .wth .., h, _ => by simp [Expr.beforeFlatB] at h
+  | .wth env body _ _ _ _ _, h, hf => by
+    simp only [Expr.beforeFlatB, Bool.and_eq_true] at h
+    exact ⟨inlineClean_of_flat env h.1 hf.1, inlineClean_of_flat body h.2 hf.2⟩
   | .asrt .., h, _ => by simp [Expr.beforeFlatB] at h
   | .sel e _ _ _ _ _, h, hf => inlineClean_of_flat e h hf
   | .selOr e _ _ _ d _ _ _ _, h, hf => by
